@@ -356,7 +356,19 @@ func sum(p proj) int {
 	return s
 }
 
+// coarse maps a result class to what C23 distinguishes: success, failure that charges the fee, rejection without effect
+func coarse(res string) string {
+	switch res {
+	case "ok", "commit":
+		return res
+	case "insufficientFunds":
+		return "failed-and-charged"
+	}
+	return "rejected"
+}
+
 type bResult struct {
+	drift             string
 	steps             int
 	broken            string
 	sig, what         string
@@ -406,10 +418,13 @@ func replayOne(bi int, b []vtrace.Step) (res bResult) {
 		after := e.project()
 		exp := vtrace.Str(st.Out["res"])
 		what := ""
-		if got != exp {
+		if coarse(got) != coarse(exp) {
 			what = "outcome"
 		} else {
 			what = diff(st.St, after)
+			if what == "" && got != exp {
+				res.drift = fmt.Sprintf("rejection reported as %q where the specification says %q (no effect on balances, nonces or fees): tx %+v", got, exp, t)
+			}
 		}
 		if st.A == "Process" && si == len(b)-2 {
 			res.classKey = fmt.Sprint(c.Fp, c.Fm, exp, t.Snd == t.Rcv, before.exists[t.Snd], before.exists[t.Rcv])
@@ -459,7 +474,7 @@ func replay(path string) {
 	wg.Wait()
 	distinct := vtrace.NewDistinct()
 	classes := vtrace.NewDistinct()
-	steps, nviol := 0, 0
+	steps, nviol, ndrift := 0, 0, 0
 	reported := map[string]bool{}
 	for bi, r := range results {
 		if r.broken != "" {
@@ -470,6 +485,12 @@ func replay(path string) {
 		if r.classKey != "" {
 			classes.Add(r.classKey)
 			distinct.Add(r.distKey)
+		}
+		if r.drift != "" {
+			ndrift++
+			if ndrift <= 2 {
+				vtrace.Drift("C23", r.drift, nil)
+			}
 		}
 		if r.sig != "" {
 			nviol++
@@ -487,6 +508,7 @@ func replay(path string) {
 	vtrace.Stat("distinct_transitions", distinct.Len())
 	vtrace.Stat("outcome_classes", classes.Len())
 	vtrace.Stat("violations", nviol)
+	vtrace.Stat("drift", ndrift)
 }
 
 // ---------------------------------------------------------------- random histories -> trace
